@@ -6,7 +6,13 @@ package integration_tests
 
 import (
 	"context"
+	"crypto/ecdsa"
+	"crypto/elliptic"
+	crand "crypto/rand"
 	"crypto/tls"
+	"crypto/x509"
+	"crypto/x509/pkix"
+	"math/big"
 	"errors"
 	"fmt"
 	"io"
@@ -201,7 +207,7 @@ func e2eNewWorld(tr *kit.Trace) *e2eWorld {
 
 func (w *e2eWorld) startServer(cfg *server.Config) error {
 	w.srvSock = w.net.Listen("10.0.0.1", 443)
-	cfg.TLSConfig = serverTLSConfig()
+	cfg.TLSConfig = e2eServerTLS()
 	cfg.Conn = w.srvSock
 	if cfg.Authenticator == nil {
 		cfg.Authenticator = w
@@ -403,6 +409,29 @@ func (r *e2eRaw) streamProbe(payload []byte, wait time.Duration) string {
 		return "bytes"
 	}
 	return e2eErrClass(err)
+}
+
+// a self-signed certificate made at run time (no dependency on test.crt/test.key, so that this file can be
+// injected into packages of other modules as well)
+var e2eCertOnce sync.Once
+var e2eCert tls.Certificate
+
+func e2eServerTLS() server.TLSConfig {
+	e2eCertOnce.Do(func() {
+		key, err := ecdsa.GenerateKey(elliptic.P256(), crand.Reader)
+		if err != nil {
+			panic(err)
+		}
+		tmpl := &x509.Certificate{SerialNumber: big.NewInt(1), Subject: pkix.Name{CommonName: "verif.test"},
+			NotBefore: time.Unix(0, 0), NotAfter: time.Now().AddDate(100, 0, 0), DNSNames: []string{"verif.test"},
+			KeyUsage: x509.KeyUsageDigitalSignature, ExtKeyUsage: []x509.ExtKeyUsage{x509.ExtKeyUsageServerAuth}}
+		der, err := x509.CreateCertificate(crand.Reader, tmpl, tmpl, &key.PublicKey, key)
+		if err != nil {
+			panic(err)
+		}
+		e2eCert = tls.Certificate{Certificate: [][]byte{der}, PrivateKey: key}
+	})
+	return server.TLSConfig{Certificates: []tls.Certificate{e2eCert}}
 }
 
 func tlsFromServer(c server.TLSConfig) *tls.Config {
